@@ -107,6 +107,7 @@ type c04Run struct {
 	l1human  []string
 	okClaims int
 	rejected int
+	hookLen  int             // > 0: the next failing-hook deposit carries this many bytes of undecodable hook data
 	deepN    int             // > 0: the output commits to a tree of deepN leaves in which only a few are the recorded withdrawals
 	pos      []int           // deep tree: position of recorded withdrawal k in the committed tree
 	hooks    map[string]Hook // hook payloads built by the generator: hex(raw tx) -> structural description
@@ -126,6 +127,11 @@ func (x *c04Run) viol(step int, sig, what string) {
 	ops := l1OpsHuman(x.c1.Ops)
 	ops = append(ops, "--- L2 ops ---")
 	ops = append(ops, opsCoq(x.sc.Case.Ops)...)
+	for i, o := range ops { // megabyte hook payloads: keep the replay readable
+		if len(o) > 1200 {
+			ops[i] = o[:1000] + fmt.Sprintf("...<%d characters omitted>...", len(o)-1200) + o[len(o)-200:]
+		}
+	}
 	x.rep.Violate(Violation{Case: x.id, Step: step, What: what, Sig: sig, Ops: ops})
 }
 
@@ -276,6 +282,12 @@ func (x *c04Run) produce(kind int, di int, amt *big.Int) {
 		default: // hook payload that does not decode
 			to = e2.User(uint64(1 + r.Intn(5))).Str
 			data = []byte{0xff, 0xfe, byte(r.Intn(256)), 0x01}
+			if x.hookLen > 0 { // payload-size axis: undecodable filler of the requested length
+				data = make([]byte, x.hookLen)
+				for i := range data {
+					data[i] = byte(0xff - i%7)
+				}
+			}
 		}
 		if kind == 2 && amt.Sign() == 0 {
 			to = c04BadRecipients[0] // a zero amount to a blocked account only creates the account
@@ -718,6 +730,26 @@ func genC04(seed uint64, tier string, outdir string) *Report {
 		rep.CountCase(strings.Join(l1OpsHuman(y.c1.Ops), "\n")+"\n"+strings.Join(opsCoq(y.sc.Case.Ops), "\n"), y.okClaims > 0 && y.rejected > 0)
 		texts1 = append(texts1, y.coq(tree))
 		texts2 = append(texts2, y.sc.Case.Coq())
+	}
+	// (a''') hook payload sizes: L1 accepts hook data of any length, so L2 must credit-or-refund the relayed
+	//        deposit whatever its size (1 B .. 1 MiB of undecodable data: refunded like any undecodable hook).
+	//        MONITOR-ONLY (not replayed by the models: megabyte literals are unaffordable in the Coq case files;
+	//        the model treats every non-empty undecodable payload as HGarbage regardless of its length).
+	{
+		id++
+		x := newC04Run(rep, seed*27644437, id, 1, 2, false)
+		for _, n := range []int{1, 1024, 16*1024 - 1, 16 * 1024, 16*1024 + 1, 64 * 1024, 1 << 20} {
+			x.hookLen = n
+			before := len(x.leaves)
+			x.produce(3, x.r.Intn(len(x.bases)), c04Amount(x.r))
+			rep.Hist(fmt.Sprintf("hook-data-bytes:%d-refunds:%d", n, len(x.leaves)-before))
+		}
+		x.hookLen = 0
+		x.produce(0, 0, big.NewInt(77)) // a later deposit must not be stuck behind them
+		x.commitAndClaim()
+		rep.Ops += len(x.c1.Ops) + len(x.sc.Case.Ops)
+		rep.CountCase(fmt.Sprintf("hook-sizes-%d", seed), x.okClaims > 0 && x.rejected > 0)
+		rep.Notes = append(rep.Notes, "hook payload sizes 1 B .. 1 MiB (incl. 16 KiB-1, 16 KiB, 16 KiB+1): one monitor-only case per run, relayed through the real L2 Validate + handler; not model-compared")
 	}
 	// (a'') deep trees: outputs committing to 2^k and 2^k+1 leaves (proof lengths 8, 9, 16, 17; thorough
 	//       also 18 and 21), of which only five are the recorded withdrawals of the run - the others are
